@@ -11,7 +11,9 @@ run_one() {
   f=$1
   case "$f" in
     mutants/*) id=$(basename "$f" | cut -d- -f1) ;;
-    seeded/*) id=$(python3 -c "import json,sys;print(json.load(open('$(dirname "$f")/meta.json'))['property'])") ;;
+    seeded/*) id=$(python3 -c "import json,sys;m=json.load(open('$(dirname "$f")/meta.json'));print(m.get('judged_by') or m['property'])")
+      outside=$(python3 -c "import json,sys;print(json.load(open('$(dirname "$f")/meta.json')).get('outside_statement',''))")
+      if [ -n "$outside" ]; then echo "OUTSIDE $id  $f  [$outside]" | cut -c1-200; return; fi ;;
   esac
   out=$(SCRATCH=/tmp/st.$$.$(echo "$f" | md5sum | cut -c1-8) tools/mutant_run.sh "$f" "$id" 2>&1)
   if echo "$out" | grep -q "^VIOLATION property=$id"; then
